@@ -6,7 +6,8 @@ from harness.common import sim
 PROP = "C56"
 LEAN_MODULES = ["LunaVerif.Props.C56", "LunaVerif.Props.C56Stream", "LunaVerif.Props.C56Spi",
                 "LunaVerif.Lemmas.C56StreamAny", "LunaVerif.Props.C56Uart", "LunaVerif.Props.C56Cdc",
-                "LunaVerif.Props.C56SpiBits", "LunaVerif.Lemmas.C56UartRank", "LunaVerif.Props.C56UartLive"]
+                "LunaVerif.Props.C56SpiBits", "LunaVerif.Lemmas.C56UartRank", "LunaVerif.Props.C56UartLive",
+                "LunaVerif.Props.C56UartMulti"]
 DRIVER = "Driver/C56.lean"
 REQUIRED_THEOREMS = ["captures_depth_consecutive_samples", "readback_nth", "trigger_during_capture_ignored",
                      "pretrigger_delay", "stream_readout_exact", "stream_readout_complete",
@@ -14,7 +15,8 @@ REQUIRED_THEOREMS = ["captures_depth_consecutive_samples", "readback_nth", "trig
                      "uart_readout_complete", "uart_readout_decoded", "decode_wave", "mb_line", "mb_bytes",
                      "queue_conservation", "cdc_readout_in_order", "cdc_readout_complete", "spi_readout_bits",
                      "rank_tstep", "live_step", "rank_zero_iff", "uart_readout_duration", "uart_readout_within",
-                     "uart_readout_total", "uart_readout_total_decoded"]
+                     "uart_readout_total", "uart_readout_total_decoded", "uart_readout_returns_idle",
+                     "uart_multi_capture", "uart_multi_capture_decoded", "idle_prefix"]
 RULE = ("cases = (sample_depth in {1,2,5,32,100} (+3,4,7,8,16,33 thorough), samples_pretrigger 0..3, domain sync/usb, "
         "three captured signals of 1+8+5 bits) x pattern: triggers sparse / held high / bursts / random incl. during "
         "capture; inputs random every cycle or a counter; captured_sample_number sweeps and random reads, also while "
@@ -73,11 +75,13 @@ PARTIAL = ("the IntegratedLogicAnalyzer core and all three read-out wrappers are
            "over an abstract in-order-queue model of Amaranth's AsyncFIFOBuffered (any clock interleaving, any w_rdy / "
            "r_rdy behaviour within the queue contract); that the library FIFO's Gray-code implementation meets that "
            "contract for all histories, and that it eventually delivers (liveness), is validated on the simulated "
-           "two-clock traces only; (2) the UART / CDC theorems consider one capture per history (no new trigger accepted "
-           "after the hand-over cycle; the UART duration theorems start from a quiescent transmitter, which "
-           "uart_readout_within re-establishes at the end); consecutive captures compose through "
-           "stream_readout_returns_idle and the general start state of uart_readout_exact (bytes pending / owed at "
-           "the start are carried through), but a whole-history multi-capture statement is not written out; (3) no "
+           "two-clock traces only; (2) the CDC theorems consider one capture per history (no new trigger accepted "
+           "after the hand-over cycle); consecutive captures compose through stream_readout_returns_idle, but a "
+           "whole-history multi-capture statement is written out for the UART wrapper only (uart_multi_capture / "
+           "_decoded: any number of captures, each followed by at least one read-out time "
+           "10*divisor*bytes_per_sample*depth + 3 before the next trigger is accepted; a trigger that arrives "
+           "earlier, while the transmitter is still busy with the previous buffer, is covered by the general start state of "
+           "uart_readout_exact only); (3) no "
            "duration bound is stated for the SyncSerialILA read-out (its pace is the SPI controller's: the theorems "
            "hold for every sck / cs activity)")
 
